@@ -463,13 +463,24 @@ CHECKS = {
                    "read off the node's requests) is held back, a second connection delivers unsolicited hash lists; at rest A "
                    "must still be connected and the node at A's tip with a reference follower's state. Not built "
                    "with -race (the detector reports a node-internal race in discover.Table on Close which is outside the listed "
-                   "properties).",
+                   "properties). TestC15Server: a real p2p.Server on loopback TCP (discovery off, MaxPeers 5) running the sub-protocols "
+                   "of a started ProtocolManager; hostile clients misbehave before / inside the encryption handshake, in the protocol "
+                   "handshake (oversized, wrong id, version, caps), with base-protocol codes (ping flood, disconnect with hostile RLP, "
+                   "codes beyond the negotiated range), declared size != frame size, corrupted frames, then the sub-protocol session "
+                   "generators; after every case: an honest client completes both handshakes and gets cap-respecting answers, honest "
+                   "peers connected before are still served, PeerCount / Peers list exactly the honest peers, the server's goroutines "
+                   "and sockets (/proc/self/fd) are exactly those of its honest peers. TestC15DiscTable: the discovery table over a "
+                   "harness transport; the harness answers the table's pings / findnodes as remote nodes with hostile neighbours "
+                   "(too many, invalid addresses, not curve points, duplicates, expired, unsolicited, wrong sender); nothing invalid "
+                   "enters the table, buckets stay bounded, pending replies drain.",
         technique="session-level stateful property testing (rapid) with reply-size and survival oracles; byte-level mutation testing of "
                   "frames / packets against an independent reference encoder; native fuzzing of payloads, frames and packets",
         rule="non-trivial = session with >=1 message that decodes far enough to reach a chain lookup or insert; frame stream whose "
              "first differing byte lies after a header MAC (or a crafted header with valid MAC); packet that passes the hash check; "
              "handshake message that passes ECIES integrity; after-sync case in which the downloader's cycle completed (node at "
-             "the presented tip, peer still connected) before the unsolicited deliveries",
+             "the presented tip, peer still connected) before the unsolicited deliveries; server case in which the hostile client "
+             "completed a valid encryption handshake (or its auth message passes ECIES integrity); table case in which hostile packets "
+             "with a valid hash and signature were processed",
         assumptions=["a fake msg.Size stands for the frame size; codes >= 9 never reach the handler in the real stack",
                      "'blocked indefinitely' = no goroutine of the process can release the handler and no synchronisation can start "
                      "without a further message; stimuli the harness could still send are not counted as releasers"],
@@ -477,6 +488,8 @@ CHECKS = {
         jobs=[dict(test="TestC15Session", pkg="p15", quick=T(8, 350), thorough=T(12, 3000, 0, 3000)),
               dict(test="TestC15AfterSync", pkg="p15", quick=T(4, 120), thorough=T(8, 2500, 0, 3000)),
               dict(test="TestC15ThirdPeer", pkg="p15", quick=T(3, 100), thorough=T(6, 3000, 0, 3000)),
+              dict(test="TestC15Server", pkg="p15", quick=T(3, 250), thorough=T(8, 2000, 0, 3000)),
+              dict(test="TestC15DiscTable", pkg="p15", quick=T(3, 20), thorough=T(8, 150, 0, 3000)),
               dict(test="TestC15Frames", pkg="p15", quick=T(2, 8000), thorough=T(4, 250000, 0, 3000)),
               dict(test="TestC15Discovery", pkg="p15", quick=T(2, 3000), thorough=T(4, 40000, 0, 3000)),
               dict(test="TestC15Handshake", pkg="p15", quick=T(1, 2500), thorough=T(2, 30000, 0, 3000)),
